@@ -44,6 +44,9 @@ void CanFdErrorFrame64::write(AbstractFile & os) {
     /* pre processing */
     validDataBytes = static_cast<uint8_t>(data.size());
 
+    /* decide once, with the objectSize that also sizes the header: it is recomputed by ObjectHeader::write */
+    const bool extData = hasExtData();
+
     ObjectHeader::write(os);
     os.write(reinterpret_cast<char *>(&channel), sizeof(channel));
     os.write(reinterpret_cast<char *>(&dlc), sizeof(dlc));
@@ -64,7 +67,7 @@ void CanFdErrorFrame64::write(AbstractFile & os) {
     os.write(reinterpret_cast<char *>(&errorPosition), sizeof(errorPosition));
     os.write(reinterpret_cast<char *>(&reservedCanFdErrorFrame2), sizeof(reservedCanFdErrorFrame2));
     os.write(reinterpret_cast<char *>(data.data()), static_cast<std::streamsize>(data.size()));
-    if (hasExtData())
+    if (extData)
         CanFdExtFrameData::write(os);
 }
 
